@@ -48,19 +48,24 @@ def skipSpaces : Str → Nat → Str × Nat
   | [], n => ([], n)
   | c :: r, n => if isSpace c then skipSpaces r (n + 1) else (c :: r, n)
 
+/-- one optional sign: (negative, rest, characters consumed) -/
+def splitSign : Str → Bool × Str × Nat
+  | c :: r => if c == '-' then (true, r, 1) else if c == '+' then (false, r, 1) else (false, c :: r, 0)
+  | [] => (false, [], 0)
+
+/-- optional `0x`/`0X` (base 16 only) — skipped only when a hex digit follows; otherwise the "0" alone is converted -/
+def skipPfx (base : Nat) (s : Str) : Str × Nat :=
+  if base = 16 then
+    match s with
+    | '0' :: x :: h :: r => if (x == 'x' || x == 'X') && (digitOf 16 h).isSome then (h :: r, 2) else (s, 0)
+    | _ => (s, 0)
+  else (s, 0)
+
 /-- `strtoull(s, &end, base)` for base 8, 10, 16 -/
 def strtoull (base : Nat) (s : Str) : Strto :=
   let (s1, nws) := skipSpaces s 0
-  let (neg, s2, nsign) : Bool × Str × Nat :=
-    match s1 with
-    | c :: r => if c == '-' then (true, r, 1) else if c == '+' then (false, r, 1) else (false, s1, 0)
-    | [] => (false, s1, 0)
-  -- optional 0x prefix (base 16) — only when a hex digit follows; otherwise the "0" alone is converted
-  let (s3, npfx) : Str × Nat :=
-    match s2 with
-    | '0' :: x :: h :: r =>
-      if base = 16 && (x == 'x' || x == 'X') && (digitOf 16 h).isSome then (h :: r, 2) else (s2, 0)
-    | _ => (s2, 0)
+  let (neg, s2, nsign) := splitSign s1
+  let (s3, npfx) := skipPfx base s2
   let (v, nd) := digitsGo base 0 0 s3
   if nd = 0 then ⟨0, 0, false⟩
   else if v ≥ 2 ^ 64 then ⟨2 ^ 64 - 1, nws + nsign + npfx + nd, true⟩
@@ -191,5 +196,105 @@ def characterLiteralToLL (s : Str) : Except CErr Int :=
       else if k == .narrow && nbytes = 1 then .ok (Int.bmod (multivalue : Int) 256)        -- static_cast<char>, host char signed
       else if k == .narrow then .ok (Int.bmod (multivalue : Int) (2 ^ 32))                -- static_cast<int>
       else .ok (multivalue : Int)
+
+/-! ## Specification side: abstract syntax of a character literal and its value
+
+ISO C 6.4.4.4 / C++ [lex.ccon] (+ the GNU escapes `\e \E \% \( \[ \{` the code accepts): a prefix and a sequence
+of c-chars, each a plain source character, a simple escape, an octal escape of 1–3 digits, a hexadecimal
+escape, or a universal character name.  The value of a one-character literal is the value of its element
+(converted to `char` for the unprefixed kind); an unprefixed literal with several c-chars is a
+multi-character constant of type `int`, valued as gcc and clang do: each c-char shifts the previous value
+left by 8 bits, the result is converted to `int`. -/
+
+def digitVal (c : Char) : Nat :=
+  if isDigit c then c.toNat - 48 else if 97 ≤ c.toNat then c.toNat - 87 else c.toNat - 55
+
+/-- positional value of a digit string, most significant digit first -/
+def positional (r : Nat) : Str → Nat
+  | [] => 0
+  | c :: cs => digitVal c * r ^ cs.length + positional r cs
+
+/-- simple escape sequences: the ISO table followed by the GNU extensions -/
+def escTable : List (Char × Nat) :=
+  [('\'', 39), ('"', 34), ('?', 63), ('\\', 92), ('a', 7), ('b', 8), ('f', 12), ('n', 10), ('r', 13), ('t', 9), ('v', 11),
+   ('e', 27), ('E', 27), ('%', 37), ('(', 40), ('[', 91), ('{', 123)]
+
+inductive CElem
+  | plain (c : Char)
+  | simple (e : Char)
+  | oct (ds : Str)
+  | hex (ds : Str)
+  | ucn4 (ds : Str)
+  | ucn8 (ds : Str)
+  deriving DecidableEq, Repr, Inhabited
+
+def CElem.render : CElem → Str
+  | .plain c => [c]
+  | .simple e => ['\\', e]
+  | .oct ds => '\\' :: ds
+  | .hex ds => '\\' :: 'x' :: ds
+  | .ucn4 ds => '\\' :: 'u' :: ds
+  | .ucn8 ds => '\\' :: 'U' :: ds
+
+def CElem.value : CElem → Nat
+  | .plain c => c.toNat
+  | .simple e => (escTable.lookup e).getD 0
+  | .oct ds => positional 8 ds
+  | .hex ds => positional 16 ds
+  | .ucn4 ds => positional 16 ds
+  | .ucn8 ds => positional 16 ds
+
+/-- largest value a numeric escape may have for the literal kind (the code unit range) -/
+def Kind.maxNumeric : Kind → Nat
+  | .narrow => 255 | .utf8 => 255 | .utf16 => 0xffff | .wide => 0xffffffff
+
+/-- largest code point a universal character name may name so that it fits one code unit -/
+def Kind.maxUcn : Kind → Nat
+  | .narrow => 0x7f | .utf8 => 0x7f | .utf16 => 0xffff | .wide => 0x10ffff
+
+def CElem.WF (k : Kind) : CElem → Bool
+  | .plain c => decide (0x20 ≤ c.toNat) && decide (c.toNat ≤ 0x7e) && c != '\'' && c != '\\'
+  | .simple e => (escTable.lookup e).isSome
+  | .oct ds => decide (1 ≤ ds.length) && decide (ds.length ≤ 3) && ds.all isOctDigit && decide (positional 8 ds ≤ k.maxNumeric)
+  | .hex ds => decide (1 ≤ ds.length) && ds.all isXDigit && decide (positional 16 ds ≤ k.maxNumeric)
+  | .ucn4 ds => ds.length == 4 && ds.all isXDigit && decide (positional 16 ds ≤ k.maxUcn) &&
+      !(decide (0xd800 ≤ positional 16 ds) && decide (positional 16 ds ≤ 0xdfff))
+  | .ucn8 ds => ds.length == 8 && ds.all isXDigit && decide (positional 16 ds ≤ k.maxUcn) &&
+      !(decide (0xd800 ≤ positional 16 ds) && decide (positional 16 ds ≤ 0xdfff))
+
+/-- maximal munch: a numeric escape is not followed by a plain character that would lex as one more digit of it
+    (such a spelling denotes a different element list) -/
+def adjOk : List CElem → Bool
+  | .oct ds :: .plain c :: rest => !(decide (ds.length < 3) && isOctDigit c) && adjOk (.plain c :: rest)
+  | .hex _ :: .plain c :: rest => !isXDigit c && adjOk (.plain c :: rest)
+  | _ :: rest => adjOk rest
+  | [] => true
+
+/-- the spelling `\x0` `x` hex-digit, e.g. `'\x0x4'` (three c-chars for a compiler) -/
+def hex0x : List CElem → Bool
+  | .hex ds :: .plain x :: .plain h :: rest =>
+    (ds == ['0'] && (x == 'x' || x == 'X') && isXDigit h) || hex0x (.plain x :: .plain h :: rest)
+  | _ :: rest => hex0x rest
+  | [] => false
+
+structure CharLit where
+  kind : Kind
+  elems : List CElem
+  deriving DecidableEq, Repr, Inhabited
+
+def Kind.pfx : Kind → Str
+  | .narrow => [] | .utf8 => ['u', '8'] | .utf16 => ['u'] | .wide => ['L']
+
+def renderElems (es : List CElem) : Str := (es.map CElem.render).flatten
+
+def CharLit.render (c : CharLit) : Str := c.kind.pfx ++ ['\''] ++ renderElems c.elems ++ ['\'']
+
+def CharLit.WF (c : CharLit) : Bool :=
+  !c.elems.isEmpty && (c.kind == .narrow || c.elems.length == 1) && c.elems.all (CElem.WF c.kind) && adjOk c.elems
+
+/-- value by the rules above; `char` and `int` are the host's (signed 8 / 32 bit), as in the code -/
+def CharLit.value (c : CharLit) : Int :=
+  let v : Nat := c.elems.foldl (fun acc e => acc * 256 + e.value) 0
+  if c.kind = .narrow then (if c.elems.length = 1 then Int.bmod v 256 else Int.bmod v (2 ^ 32)) else v
 
 end Cppcheck.CharLit
